@@ -132,7 +132,7 @@ def bounded_tokenise(seed, tier):
                     # re-encode the document with other delimiters / line ends, and perturb it
                     segs = [s for s in base.replace('\n', '').replace('\r', '').split('~') if s != '']
                     if v % 3 == 1:
-                        k = rnd.randrange(1, len(segs))
+                        k = rnd.choice([i for i in range(1, len(segs)) if not segs[i].startswith('ISA')])   # an ISA of 17 elements is (documented) X12Error
                         segs[k] = segs[k] + '*' + 'X' * rnd.choice([8100, 8192, 20000])     # straddles the read buffer
                     text = ''
                     for i, s in enumerate(segs):
